@@ -75,7 +75,8 @@ pub fn corr(ctx: &mut Ctx) {
                 if b == last { stale += 1 } else { stale = 0; last = b; }
                 if stale >= 90 {
                     let mut s = Stats::default();
-                    s.fail("hang", format!("no progress for 90 s in case: {}", current.lock().unwrap()), "{}".into());
+                    let cur = current.lock().unwrap().clone();
+                    s.fail("hang", format!("no progress for 90 s (a call did not return) in case: {}", cur), format!("{{\"stream\": \"corr-sched\", \"case\": \"{}\"}}", cur));
                     if let Some(p) = &stats_path {
                         std::fs::write(p, s.to_json()).unwrap();
                     }
@@ -97,13 +98,17 @@ pub fn corr(ctx: &mut Ctx) {
                 c
             })
             .collect();
-        *current.lock().unwrap() = format!("shape {} pool {} images {} delay {}", shape, pool_size, n_images, delay);
+        // a third of the cases run against a deadline that is first seen expired at the k-th consultation
+        let expire_at: Option<u64> = if rng.chance(1, 3) { Some(*rng.choose(&[0u64, 0, 1, 2, 3, 5, 8, 13, 30])) } else { None };
+        *current.lock().unwrap() = format!("seed {} index {} shape {} pool {} images {} delay {} expire_at {:?}", ctx.seed, i, shape, pool_size, n_images, delay, expire_at);
+        if expire_at.is_some() { st.count("cases_with_expiring_deadline"); }
         st.count(&format!("shape{}", shape));
         st.count(&format!("pool{}", pool_size));
         st.count("cases");
         st.add("images", n_images as u64);
         let log = install_tap(rng.next_u64(), delay);
         let pool = rayon::ThreadPoolBuilder::new().num_threads(pool_size).build().unwrap();
+        if expire_at.is_some() { oxipng::verif::arm_deadline(expire_at); }
         let outs: Vec<bool> = match shape {
             0 => cases.iter().map(|c| pool.install(|| matches!(run_case(&c.input, &c.opts), Outcome::Ok(_)))).collect(),
             1 => pool.install(|| cases.par_iter().map(|c| matches!(run_case(&c.input, &c.opts), Outcome::Ok(_))).collect()),
@@ -116,6 +121,7 @@ pub fn corr(ctx: &mut Ctx) {
             }
             _ => cases.iter().map(|c| matches!(run_case(&c.input, &c.opts), Outcome::Ok(_))).collect(),
         };
+        if expire_at.is_some() { st.add("deadline_consultations", oxipng::verif::disarm_deadline()); }
         beat.fetch_add(1, SeqCst);
         let main_events = log.lock().unwrap().len();
         // the pool remains usable for further calls
